@@ -31,6 +31,7 @@ RULE = ("programs from the grammar built WITHOUT prior deduplication, with "
         "tag-adding ones.  non-trivial = graph has sharing, a duplicate or a "
         "dead reference and >= 3 operation nodes; distinct by (program, "
         "pipeline)")
+RULE += '  Round-4 addition: one pipeline in six carries a reshape gadget (axis groups of unequal lengths merged / split, Fortran or C order).'
 ASSUMPTIONS = [
     "a transformation that raises the documented 'cache collision' / "
     "'mapper-created duplicate' ValueError on a graph that really contains "
@@ -312,6 +313,29 @@ def add_minus_one_two_gadget(draw, spec):
     return spec
 
 
+def add_reshape_gadget(draw, spec):
+    """a reshape that merges / splits axis groups of unequal lengths, in
+    either order (the strides of Fortran order are easy to get wrong, and the
+    lowering transformations are where they are computed)"""
+    old, new = draw(st.sampled_from([
+        ([3, 2], [6]), ([6], [2, 3]), ([2, 3, 4], [6, 4]), ([2, 3, 4], [2, 12]),
+        ([4, 6], [2, 2, 3, 2]), ([2, 3, 4], [4, 3, 2]), ([12], [3, 4])]))
+    order = draw(st.sampled_from(["F", "F", "C"]))
+    nodes = spec["nodes"]
+    k = len(nodes)
+    n = 1
+    for d in old:
+        n *= d
+    nodes.append({"op": "placeholder", "p": {
+        "name": "reshape_u", "shape": old, "dtype": "float64", "scale": 0,
+        "values": [draw(st.integers(-9, 9)) + 3 * i for i in range(n)]}})
+    nodes.append({"op": "reshape", "args": [["n", k]],
+                  "p": {"shape": new, "order": order}})
+    nodes.append({"op": "mul", "args": [["n", k + 1], ["py", 2]]})
+    spec["outputs"] = list(spec["outputs"]) + [["reshaped", k + 2]]
+    return spec
+
+
 def add_layout_gadget(draw, spec):
     """two data wrappers that are views of ONE buffer with the same start
     address, shape and dtype but (for kinds T / step) different strides,
@@ -410,6 +434,8 @@ def cases(draw):
         spec = add_layout_gadget(draw, spec)
     if draw(st.integers(0, 7)) == 0:
         spec = add_minus_one_two_gadget(draw, spec)
+    if draw(st.integers(0, 5)) == 0:
+        spec = add_reshape_gadget(draw, spec)
     n = draw(st.integers(1, 4))
     pipeline = [draw(st.sampled_from(TNAMES)) for _ in range(n)]
     return {"spec": spec, "pipeline": pipeline}, vals
